@@ -1,15 +1,308 @@
 /-
-Driver.ClientSuite — suite `client` (stub: replaced by the owner of the suite).
-Must define `clientLine : String → String` (case line ↦ model observation line) and
-`clientPred : String → String → String → String` (property id, case line, implementation
-observation line ↦ "ok" | "fail <reason>").
+Driver.ClientSuite — suite `client`: parse a case, run Model.Client, print the
+observation in the same canonical form as harness/src/suites/client.rs; and
+evaluate `P_C07` on the implementation's observation.
 -/
 import Driver.Sx
+import VarlinkVerif.Model.Client
+import VarlinkVerif.Pred.Client
 
 namespace VV
+open Sx
+open Client
 
-def clientLine (_line : String) : String := "(stub)"
+namespace ClientDrv
 
-def clientPred (_prop _caseLine _obsLine : String) : String := "fail stub-suite"
+def parseReply : Sx → Option Reply
+  | .list [.atom "r", c, e, p] => do
+    let c ← asOptBool c
+    let e ← asOptStr e
+    let p ← asOptJson p
+    pure { continues := c, error := e, parameters := p }
+  | _ => none
+
+def ofKind : EKind → Sx
+  | .io => .atom "io"
+  | .connectionClosed => .atom "closed"
+  | .badJson => .atom "badjson"
+  | .interfaceNotFound s => .list [.atom "inf", strAtom s]
+  | .invalidParameter s => .list [.atom "ip", strAtom s]
+  | .methodNotFound s => .list [.atom "mnf", strAtom s]
+  | .methodNotImplemented s => .list [.atom "mni", strAtom s]
+  | .errorReply r => .list [.atom "reply", ofOptBool r.continues, ofOptStr r.error, ofOptJson r.parameters]
+  | .methodCalledAlready => .atom "called"
+  | .connectionBusy => .atom "busy"
+  | .iteratorOldReply => .atom "old"
+
+def parseKind : Sx → Option EKind
+  | .atom "io" => some .io
+  | .atom "closed" => some .connectionClosed
+  | .atom "badjson" => some .badJson
+  | .list [.atom "inf", s] => (asStr s).map .interfaceNotFound
+  | .list [.atom "ip", s] => (asStr s).map .invalidParameter
+  | .list [.atom "mnf", s] => (asStr s).map .methodNotFound
+  | .list [.atom "mni", s] => (asStr s).map .methodNotImplemented
+  | .list [.atom "reply", c, e, p] => do
+    let c ← asOptBool c
+    let e ← asOptStr e
+    let p ← asOptJson p
+    pure (.errorReply { continues := c, error := e, parameters := p })
+  | .atom "called" => some .methodCalledAlready
+  | .atom "busy" => some .connectionBusy
+  | .atom "old" => some .iteratorOldReply
+  | _ => none
+
+def ofRes : Res → Sx
+  | .ok p => .list [.atom "ok", ofJson p]
+  | .unit => .atom "unit"
+  | .none => .atom "none"
+  | .noobj => .atom "noobj"
+  | .err k => .list [.atom "err", ofKind k]
+
+def parseRes : Sx → Option Res
+  | .list [.atom "ok", p] => (toJson p).map .ok
+  | .atom "unit" => some .unit
+  | .atom "none" => some .none
+  | .atom "noobj" => some .noobj
+  | .list [.atom "err", k] => (parseKind k).map .err
+  | _ => none
+
+def ofReq (r : Request) : Sx :=
+  .list [.atom "req", ofOptBool r.more, ofOptBool r.oneway, ofOptBool r.upgrade, strAtom r.method, ofOptJson r.parameters]
+
+def parseReq : Sx → Option Request
+  | .list [.atom "req", m, o, u, meth, p] => do
+    let m ← asOptBool m
+    let o ← asOptBool o
+    let u ← asOptBool u
+    let meth ← asStr meth
+    let p ← asOptJson p
+    pure { more := m, oneway := o, upgrade := u, method := meth, parameters := p }
+  | _ => none
+
+def parseOp : Sx → Option Op
+  | .list [.atom k, i] => do
+    let i ← asNat i
+    match k with
+    | "call" => some (.call i)
+    | "upgrade" => some (.upgrade i)
+    | "oneway" => some (.oneway i)
+    | "more" => some (.more i)
+    | "next" => some (.next i)
+    | "recv" => some (.recv i)
+    | _ => none
+  | _ => none
+
+def parseObjs : Sx → Option (List (String × Json))
+  | .list (.atom "objs" :: os) => os.mapM fun o => match o with
+    | Sx.list [m, p] => do
+      let m ← asStr m
+      let p ← toJson p
+      pure (m, p)
+    | _ => none
+  | _ => none
+
+def parseOps (tag : String) : Sx → Option (List Op)
+  | .list (.atom t :: os) => if t == tag then os.mapM parseOp else none
+  | _ => none
+
+/-- a frame of the script; `(part b.. dec)` with no bytes is nothing at all -/
+def parseFrame : Sx → Option (List Msg)
+  | .list [.atom "f", _, .atom "bad"] => some [Msg.garbage]
+  | .list [.atom "f", _, d] => (parseReply d).map fun r => [Msg.reply r]
+  | .list [.atom "part", b, d] => do
+    let b ← asBytes b
+    if b.isEmpty then pure [] else
+    match d with
+    | .atom "bad" => pure [Msg.garbage]
+    | d => (parseReply d).map fun r => [Msg.reply r]
+  | .list [.atom "ioerr", .atom "t"] => some [Msg.ioerr true]
+  | .list [.atom "ioerr", .atom "f"] => some [Msg.ioerr false]
+  | _ => none
+
+def parseGroups : Sx → Option (List (Bool × List Msg))
+  | .list (.atom "groups" :: gs) => gs.mapM fun g => match g with
+    | Sx.list (Sx.atom "g" :: Sx.atom c :: fs) => do
+      let fs ← fs.mapM parseFrame
+      pure (c == "t", fs.flatten)
+    | _ => none
+  | _ => none
+
+def scriptPeer (groups : List (Bool × List Msg)) : Peer := fun log _ =>
+  match groups[log.length + 1]? with
+  | some (c, fs) => (fs, c)
+  | none => ([], false)
+
+/-- mirror of `echo_frames` of the harness -/
+def echoPeer : Peer := fun _ rq =>
+  if isOneway rq then ([], false) else
+  let p := rq.parameters.getD .null
+  let tok := (p.get? "token").getD .null
+  let k : Nat := if wantsMore rq then (match p.get? "k" with | some (.int n) => n.toNat | _ => 0) else 0
+  let conts := (List.range k).map fun i =>
+    Msg.reply { continues := some true, parameters := some (.obj [("i", .int (Int.ofNat i)), ("token", tok)]) }
+  let fin : Reply := match p.get? "err" with
+    | some (.str name) => { error := some name, parameters := some (.obj [("i", .int (Int.ofNat k)), ("token", tok)]) }
+    | _ => { parameters := some (.obj [("i", .int (Int.ofNat k)), ("token", tok)]) }
+  (conts ++ [Msg.reply fin], false)
+
+def obsSx (trace : List (Nat × Res)) (log : List Request) (slots : Option Conn) (blocked : Bool) : Sx :=
+  .list [.atom "obs",
+    .list (.atom "res" :: trace.map fun (t, r) => .list [.atom (toString t), ofRes r]),
+    .list (.atom "log" :: log.map ofReq),
+    (match slots with
+     | some c => .list [.atom "slots", ofBool c.reader, ofBool c.writer]
+     | none => .list [.atom "slots", .atom "-", .atom "-"]),
+    ofBool blocked]
+
+def mkObjs (objs : List (String × Json)) : List MCall := objs.map fun (m, p) => MCall.new m p
+
+def runSeqCase (objs : List (String × Json)) (ops : List Op) (groups : List (Bool × List Msg)) (wb : Option Nat) : Sx :=
+  let g0 : GState := {
+    wire := { queue := ((groups[0]?).getD (false, [])).2, closed := ((groups[0]?).getD (false, [])).1, wbudget := wb },
+    objs := mkObjs objs, progs := [ops] }
+  let g := runSeq (scriptPeer groups) (2 * ops.length + 2) g0
+  let blocked := (g.progs[0]?).getD [] != []
+  obsSx g.trace g.wire.log (if blocked then none else some g.conn) blocked
+
+def parseProgs : Sx → Option (List (List Op))
+  | .list (.atom "progs" :: ps) => ps.mapM (parseOps "p")
+  | _ => none
+
+def runGatedCase (objs : List (String × Json)) (progs : List (List Op)) (sched : List Nat) : Sx :=
+  let g0 : GState := { objs := mkObjs objs, progs := progs }
+  let g := runSched echoPeer g0 sched
+  obsSx g.trace g.wire.log (some g.conn) false
+
+def threadOfReq' (r : Request) : Option Nat := threadOfReq r
+
+/-- free mode: any complete schedule gives the same per-thread view; the driver uses "one thread after the other" -/
+def runFreeCase (objs : List (String × Json)) (progs : List (List Op)) : Sx :=
+  let g0 : GState := { objs := mkObjs objs, progs := progs }
+  let sched := (List.range progs.length).flatMap fun t => List.replicate (2 * ((progs[t]?).getD []).length + 2) t
+  let g := runSched echoPeer g0 sched
+  let threads := (List.range progs.length).map fun t =>
+    Sx.list ((g.trace.filter (·.1 == t)).map fun (_, r) => ofRes r)
+  let logs := (List.range progs.length).map fun t =>
+    Sx.list ((g.wire.log.filter fun r => threadOfReq r == some t).map ofReq)
+  .list [.atom "free-obs", .list (.atom "threads" :: threads), .list (.atom "logs" :: logs),
+         .list [.atom "slots", ofBool g.conn.reader, ofBool g.conn.writer], strAtom ""]
+
+def runCase : Sx → Option Sx
+  | .list [.atom "kind", r] => do
+    let r ← parseReply r
+    pure (.list [.atom "kind-obs", ofKind (kindOf r)])
+  | .list [.atom "seq", objs, ops, groups, wb] => do
+    let objs ← parseObjs objs
+    let ops ← parseOps "ops" ops
+    let groups ← parseGroups groups
+    let wb := asNat wb
+    pure (runSeqCase objs ops groups wb)
+  | .list [.atom "gated", objs, progs, .list (.atom "sched" :: ts)] => do
+    let objs ← parseObjs objs
+    let progs ← parseProgs progs
+    let ts ← ts.mapM asNat
+    pure (runGatedCase objs progs ts)
+  | .list [.atom "free", objs, progs, _] => do
+    let objs ← parseObjs objs
+    let progs ← parseProgs progs
+    pure (runFreeCase objs progs)
+  | _ => none
+
+/-! ### predicate glue -/
+
+def parseTrace (l : List Sx) : Option (List (Nat × Res)) :=
+  l.mapM fun e => match e with
+    | Sx.list [t, r] => do
+      let t ← asNat t
+      let r ← parseRes r
+      pure (t, r)
+    | _ => none
+
+def parseLog (l : List Sx) : List Request × Bool :=
+  l.foldr (fun x (acc : List Request × Bool) =>
+    match parseReq x with
+    | some r => (r :: acc.1, acc.2)
+    | none => (acc.1, true)) ([], false)
+
+def parseSlots : Sx → Option (Bool × Bool)
+  | .list [.atom "slots", .atom r, .atom w] =>
+    if r == "-" || w == "-" then none else some (r == "t", w == "t")
+  | _ => none
+
+/-- has every stream that was started been read to its final reply? (thread cases, echo server) -/
+def streamsDone (objs : List (String × Json)) (progs : List (List Op)) (per : List (List Res)) : Bool :=
+  (List.range progs.length).all fun t =>
+    let prog := (progs[t]?).getD []
+    let rs := (per[t]?).getD []
+    rs.length == prog.length &&
+    ((prog.zip rs).all fun (op, r) =>
+      match op, r with
+      | .more i, .unit =>
+        let k : Int := match (objs[i]?).bind (fun o => o.2.get? "k") with | some (.int n) => n | _ => 0
+        (prog.zip rs).any fun (op', r') =>
+          (op' == .next i || op' == .recv i) &&
+          (match resPayload r' with | some p => idxOf p == some k | none => false)
+      | _, _ => true)
+
+def predCase (cs os : Sx) : Verdict :=
+  match cs, os with
+  | .list [.atom "kind", r], .list [.atom "kind-obs", k] =>
+    match parseReply r, parseKind k with
+    | some r, some k =>
+      (match expectedOutcome r, r.error with
+       | .err want, some _ => if k == want then none else some "error-kind-does-not-follow-from-the-error-name"
+       | _, none => if k == .errorReply r then none else some "reply-without-error-not-kept-whole"
+       | _, _ => some "internal")
+    | _, _ => some "unparsable-kind-case"
+  | .list [.atom "seq", objs, ops, groups, wb],
+    .list [.atom "obs", .list (.atom "res" :: res), .list (.atom "log" :: log), slots, blocked] =>
+    match parseObjs objs, parseOps "ops" ops, parseGroups groups, parseTrace res with
+    | some objs, some ops, some groups, some tr =>
+      let (lg, raw) := parseLog log
+      P_C07_seq { objs, ops, groups, wbudget := asNat wb }
+        { results := tr.map (·.2), log := lg, rawLog := raw, slots := parseSlots slots,
+          blocked := (match blocked with | .atom "t" => true | _ => false) }
+    | _, _, _, _ => some "unparsable-seq-case-or-observation"
+  | .list [.atom "gated", objs, progs, _],
+    .list [.atom "obs", .list (.atom "res" :: res), .list (.atom "log" :: log), slots, _] =>
+    match parseObjs objs, parseProgs progs, parseTrace res with
+    | some objs, some progs, some tr =>
+      let (lg, raw) := parseLog log
+      let per := (List.range progs.length).map fun t => (tr.filter (·.1 == t)).map (·.2)
+      P_C07_threads { objs, progs } false per lg raw (parseSlots slots) (streamsDone objs progs per)
+    | _, _, _ => some "unparsable-gated-case-or-observation (anomaly?)"
+  | .list [.atom "free", objs, progs, _],
+    .list [.atom "free-obs", .list (.atom "threads" :: ths), .list (.atom "logs" :: logs), slots, anomaly] =>
+    match parseObjs objs, parseProgs progs, ths.mapM (fun t => match t with | Sx.list l => l.mapM parseRes | _ => none) with
+    | some objs, some progs, some per =>
+      if (asStr anomaly).getD "?" != "" then some ("anomaly-" ++ (asStr anomaly).getD "?") else
+      let parsed := logs.map fun l => match l with | Sx.list l => parseLog l | _ => ([], true)
+      let lg := (parsed.map (·.1)).flatten
+      let raw := parsed.any (·.2)
+      P_C07_threads { objs, progs } true per lg raw (parseSlots slots) true
+    | _, _, _ => some "unparsable-free-case-or-observation"
+  | _, .list (.atom "panic" :: _) => some "panic"
+  | _, _ => some "unparsable-case-or-observation"
+
+end ClientDrv
+
+def clientLine (line : String) : String :=
+  match parse line with
+  | none => "(model-parse-error)"
+  | some sx =>
+    match ClientDrv.runCase sx with
+    | none => "(model-case-error)"
+    | some o => render o
+
+def clientPred (prop caseLine obsLine : String) : String :=
+  match parse caseLine, parse obsLine with
+  | some cs, some os =>
+    if prop == "C07" || prop == "C04" || prop == "C05" then
+      match ClientDrv.predCase cs os with
+      | none => "ok"
+      | some r => "fail " ++ r
+    else "fail unknown-property"
+  | _, _ => "fail unparsable-line"
 
 end VV
